@@ -145,7 +145,7 @@ CHECKS["C18"] = dict(
     exhaustive=False,
     rule=("table: the complete product gap type {CENTRE,BDRY} x direction {E,S,W,N,R,D,L,U} x relation {==,>=} x gap {12, +0, -0, -12, 3.5, -3.5} x transform sequence "
           "(7 single transforms, all 49 ordered pairs, CW^4, ACW^4, CW.CW.R180) x storage order ((a,b) or (b,a) with negated direction) x second constraint on the other axis "
-          "(none / before / after) = 67,968 cases; each constraint is read through SepMatrix::writeTglf() (own interpreter of the documented TGLF meaning) and through the "
+          "(none / before / after, each also with the ids given in the opposite order) = 113,280 cases; each constraint is read through SepMatrix::writeTglf() (own interpreter of the documented TGLF meaning) and through the "
           "vpsc::Constraint objects of generateSeparationConstraints(), and evaluated on ~700 two-node placements around every satisfaction threshold (node extents random, "
           "non-square, swapped by quarter turns and diagonal flips); "
           "subset: transformClosedSubset/transformOpenSubset/removeNode/removeNodes on random 3-7 node matrices against pair-wise application, Graph::rotate90cw/acw/180; "
@@ -153,7 +153,7 @@ CHECKS["C18"] = dict(
           "written, parsed independently, read back by the library and written again. non-trivial = (table) the writer accepted the constraint, (subset) the operation "
           "touches some but not all pairs, (roundtrip) the graph has both edges and constraints"),
     workloads=[
-        dict(harness="c18_dialect", mode="table", quick=67968, thorough=67968, fixed=True, watchdog=60, san_thorough=67968),
+        dict(harness="c18_dialect", mode="table", quick=113280, thorough=113280, fixed=True, watchdog=60, san_thorough=113280),
         dict(harness="c18_dialect", mode="subset", quick=60000, thorough=2000000, watchdog=60, san_thorough=20000),
         dict(harness="c18_dialect", mode="roundtrip", quick=30000, thorough=1000000, watchdog=60, san_thorough=20000),
     ],
@@ -171,6 +171,33 @@ MANIFEST_TEXT["C18"] = dict(
     technique="runtime monitor: exhaustive table of constraint x transform-sequence combinations judged on sampled placements through two observation channels (written TGLF read by an independent interpreter; generated VPSC constraints), plus differential and round-trip monitors on random matrices/graphs",
     text="Each combination is actually executed (addSep, transform..., writeTglf, generateSeparationConstraints) and the results are compared with a plane map and a constraint interpreter written from the documentation: sat(c,P) <=> sat(T(c),T(P)), identity sequences restore the text, composites agree with the single transform they equal, (a,b)/(b,a) storage gives identical output, both channels agree. Round trips are compared with the generated record by an independent parser, with the re-read graph via the API, and write-read-write must be a fixed point. Held on the executions observed.",
     note="Trusts the harness' TGLF interpreter (dialect_common.h) and plane maps. Graph::updateColaGraphRep() keeps stale rectangles after setDims/setCentre; the harness writes placement geometry into the rectangles directly (noted in DESIGN.md).",
+)
+
+CHECKS["C19"] = dict(
+    level="exploration",
+    rule=("peel: connected simple graphs, 1-60 nodes (random connected, trees, cycles, ladders, cores with hanging trees, hubs, dense cores, paths, stars, double-centre trees, "
+          "caterpillars): peel() is compared with an independent 2-core computation and the partition laws of the statement (nodes, tree roots, acyclic connected trees, "
+          "edge multiset, no leaf in the core); every returned Tree is then laid out with Tree::symmetricLayout() (random growth direction, node separation, rank separation "
+          ">= largest node extent, convex ordering on/off) and all node boxes are tested pairwise for overlap; 20% of the cases build a union of 1-5 graphs and check "
+          "Graph::getConnComps(). planarise: 2-14 nodes on a 20-unit lattice with own axis-parallel routes (straight, L, Z, U shapes; crossings, shared sub-routes, T contacts), "
+          "OrthoPlanariser::planarise() with constraints on/off: result edges axis-parallel, pairwise neither crossing nor overlapping, original nodes present and unmoved, "
+          "former neighbours connected through new nodes only. non-trivial = (peel) the graph has both a core and a peeled part / >= 2 components, (planarise) the input routes cross"),
+    workloads=[
+        dict(harness="c19_decomp", mode="peel", quick=300000, thorough=6000000, watchdog=60, san_thorough=20000),
+        dict(harness="c19_decomp", mode="planarise", quick=200000, thorough=4000000, watchdog=60, san_thorough=20000),
+    ],
+    min_nontrivial=dict(quick=100000, thorough=1500000),
+    max_inconclusive=0.02,
+    require_obs=["graphs_peeled", "trees_returned", "tree_nodes_checked", "trees_laid_out", "tree_node_pairs_checked", "component_extractions", "graphs_planarised",
+                 "input_route_crossings", "result_edge_pairs_checked", "former_neighbour_pairs_checked"],
+    assumptions=["symmetric layout is called with rankSep >= the largest node extent of the tree (rankSep is a centre-to-centre rank distance)",
+                 "planarise inputs keep routes clear of other nodes' boxes and never fold back on themselves; coordinates are multiples of 10 (the planariser merges points closer than 0.5)",
+                 "a pure tree input leaves a core of at most one node (the documented root; the double-centre case leaves an empty core)"],
+)
+MANIFEST_TEXT["C19"] = dict(
+    technique="runtime monitor: structural oracles over the objects returned by peel()/getConnComps()/symmetricLayout()/planarise() on generated graphs (independent 2-core, partition laws, pairwise box and segment geometry, reachability through new nodes)",
+    text="Every returned decomposition is checked against the statement with an independent computation: node and edge partition, tree shape, core = 2-core, component partition, overlap-free tree layouts, and for planarisation a pairwise crossing/overlap test of all result edges plus a search that reconnects every former neighbour pair through new nodes only. Held on the executions observed.",
+    note="Reads the public Graph/Tree/Node/Edge accessors only.",
 )
 
 CHECKS["C03"] = dict(
